@@ -10,11 +10,11 @@ package main
 //   c15.holds.step_bounds ...                          oracle: implementation write -> read obeys the theorem statements
 
 import (
+	"bufio"
 	"bytes"
 	"compress/gzip"
 	"encoding/binary"
 	"encoding/hex"
-	"bufio"
 	"fmt"
 	"hash/fnv"
 	"io"
@@ -456,7 +456,6 @@ func c15sizeClass(n int) string {
 	}
 }
 
-
 // ---- SPZ ---------------------------------------------------------------------------------------------
 //   c15.spz.read <hex decompressed stream>     spz.Read(gzip(stream)) vs the model's decoder, bit for bit
 //   c15.holds.spz_dequant ver n deg fb <rec hex>* ok n dim <floats>
@@ -669,7 +668,6 @@ func (c *Ctx) runC15spz() {
 		}
 	}
 }
-
 
 // ---- reader family: a decoder must compute the same result whatever chunking the io.Reader delivers ---------------
 
